@@ -154,3 +154,24 @@ PROPS["C04"] = dict(
     assumptions=EXEC_ASSUME,
     design_ref="DESIGN.md section 5 C04",
 )
+
+PROPS["C11"] = dict(
+    pkg="exec", test="TestC11", engine="exec",
+    quick=dict(checks=3000, shards=3), thorough=dict(checks=240000, shards=16),
+    nt_floor=dict(quick=1000, thorough=60000),
+    must_classes=["strategy=R", "strategy=A", "same-op-again", "other-op-of-same-document", "var-inside-object-literal",
+                  "var-inside-list-literal", "fragment", "input-var", "step-with-errors"],
+    level="exploration",
+    technique="stateful property-based testing: generated sequences of ResolveExecutable calls on one parsed document, each step compared with a fresh parse on a fresh root; printed form compared after every step",
+    rule="rapid generates a document of 1-3 operations over a schema with input-object, list, enum and scalar arguments: arguments written"
+         " out of declaration order, variables inside list and object literals, variable defaults, shared fragments, @skip/@include on"
+         " variables; then a history of 2-8 resolve calls choosing the operation and a variable map (good and bad values, omissions)."
+         " Oracle per step: the response (data, error messages, paths, locations) of the re-used Executable equals the response of a freshly"
+         " parsed copy on a fresh root, and Executable.String() equals the text printed right after parsing. Non-trivial = an operation is"
+         " resolved again or another operation of the document follows, and the document has variables inside container literals or fragments.",
+    level_text="History-based differential testing; the oracle is ggql itself on a fresh parse (a metamorphic relation), so it cannot see a defect"
+               " that affects first use and re-use alike - those are C01/C04's job.",
+    level_note="Trusted: nothing beyond the fixtures; the relation compares ggql with itself.",
+    assumptions=["fixtures are deterministic and echo their arguments", "caller-owned variable maps are rebuilt for every call (ggql coerces variable containers in place)"],
+    design_ref="DESIGN.md section 5 C11",
+)
